@@ -156,7 +156,8 @@ def run_history(hist, workdir, tag, extra_env=None):
 
 
 def history_workload(ctx, rng, spec, workdir):
-    progs = sampling_programs(rng)
+    progs = sampling_programs(rng)  # same rng in every shard: program k is the same document everywhere
+    prng = np.random.default_rng([int(spec["seed"]), 11, 1, int(spec["part"])])  # per-shard choices
     if spec["tier"] == "quick":
         # one program per shard; which ones rotates with the seed so that repeated runs cover all of them
         k = (int(spec["part"]) + int(spec["seed"]) * int(spec["of"])) % len(progs)
@@ -166,7 +167,9 @@ def history_workload(ctx, rng, spec, workdir):
     t0 = time.time()
     budget = 300 if spec["tier"] == "quick" else 2400
     for (name, kind, d, ins, shots, extra, label) in mine:
-        seeds = SEEDS if spec["tier"] == "thorough" else [SEEDS[int(rng.integers(0, len(SEEDS)))], 0]
+        # quick tier: seed 0 and one other seed (drawn per shard; never 0 twice - a duplicated seed made the
+        # seed-pair comparison compare a sequence with itself: false alarm at VERIF_SEED 3, 5, 8.., DESIGN 7.4)
+        seeds = SEEDS if spec["tier"] == "thorough" else [SEEDS[1 + int(prng.integers(0, len(SEEDS) - 1))], 0]
         canon = {}
         for seed in seeds:
             hist = build_history(name, kind, d, ins, shots, extra, seed, "none")
@@ -186,7 +189,10 @@ def history_workload(ctx, rng, spec, workdir):
                 if canon[ss[i]] == canon[ss[j]] and len(set(map(tuple, canon[ss[i]]))) > 1:
                     ctx.viol("different-seeds-same-samples:%s" % kind, "%s: seeds %s and %s give the identical sample sequence" % (name, ss[i], ss[j]),
                              {"program": name, "seeds": [ss[i], ss[j]]})
-        perts = PERTURBATIONS[1:] if spec["tier"] == "thorough" else [PERTURBATIONS[1 + int(i)] for i in rng.permutation(len(PERTURBATIONS) - 1)[:3]]
+        # quick tier: three perturbations per shard, rotating so that one run exercises every kind
+        npert = len(PERTURBATIONS) - 1
+        perts = PERTURBATIONS[1:] if spec["tier"] == "thorough" else [
+            PERTURBATIONS[1 + (3 * int(spec["part"]) + int(spec["seed"]) + j) % npert] for j in range(3)]
         for si, seed in enumerate(ss):
             # a second pristine process must reproduce the canonical samples (every seed, seed 0 included);
             # perturbed histories: every seed in the thorough tier, the first seed in the quick tier
@@ -415,7 +421,7 @@ def threads_workload(ctx, rng, spec):
 def plan(tier, seed):
     q = tier == "quick"
     specs = []
-    nhist = 10 if q else 15
+    nhist = 15  # one shard per sampling program (quick: one program each; thorough: all seeds and perturbations)
     for i in range(nhist):
         specs.append({"name": "history-%d" % i, "kind": "history", "part": i, "of": nhist, "shard": i, "weight": 2})
     specs.append({"name": "hwc", "kind": "hwc", "shard": 40, "count": 24 if q else 120, "hwc": [0, 1, 2, 3, 5, 16, 64] if q else list(range(0, 17)) + [24, 32, 48, 64]})
